@@ -54,6 +54,10 @@ REQUESTS = [
     ('fault_odd_detailstr', 'fail_odd', [('which', 'detailstr')]), ('fault_odd_nonecode', 'fail_odd', [('which', 'nonecode')]),
     ('fault_odd_nonemsg', 'fail_odd', [('which', 'nonemsg')]), ('fault_odd_bytesmsg', 'fail_odd', [('which', 'bytesmsg')]),
     ('fault_odd_surrogate', 'fail_odd', [('which', 'surrogate')]),
+    # response headers set by the method (HTTP headers when HttpRpc writes the answer)
+    ('hdr_single', 'hdr', [('how', 'single')]), ('hdr_multi_text', 'hdr', [('how', 'multi_text')]), ('hdr_multi_int', 'hdr', [('how', 'multi_int')]),
+    ('hdr_array_int', 'hdr', [('how', 'array_int')]), ('hdr_multi_dt', 'hdr', [('how', 'multi_dt')]), ('hdr_all', 'hdr', [('how', 'all')]),
+    ('hdr_scalars', 'hdr', [('how', 'scalars')]), ('hdr_empty', 'hdr', [('how', 'empty')]),
     # the method picks the protocol of its own answer (a fresh instance per request)
     ('negotiate_json', 'negotiate', [('fmt', 'json'), ('how', 'ok')]),
     ('negotiate_xml', 'negotiate', [('fmt', 'xml'), ('how', 'ok')]),
